@@ -193,6 +193,8 @@ _STK = re.compile(r"CBV stacks defer=(\d+) dtor=(\d+) scopes=(\d+)")
 def run_impl(impl_dir, p, sty=0):
     """Canonical observation of the implementation: (ok, transcript lines, imbalance tuples, final depths)."""
     rc, o, e = common.run_cb(impl_dir, to_cb(p, sty), env={"CB_VERIF_STACKS": "1"}, timeout=10)
+    if rc == 124:      # these programs run in milliseconds: a timeout is machine load, try again with room
+        rc, o, e = common.run_cb(impl_dir, to_cb(p, sty), env={"CB_VERIF_STACKS": "1"}, timeout=120)
     imb = [tuple(int(x) for x in m.groups()) for m in _IMB.finditer(e)]
     m = _STK.search(e)
     depths = tuple(int(x) for x in m.groups()) if m else None
